@@ -557,6 +557,10 @@ func (c *child) runScenario(sc *scenario) endInfo {
 			for time.Now().Before(deadline) && !readerBlocked() {
 				time.Sleep(2 * time.Millisecond)
 			}
+			if readerBlocked() {
+				// an observation of its own: the model must be in a state with the reader parked
+				w.stamp(i, "OParked", 0, 0)
+			}
 		case "gate":
 			// hold the next goroutine that reaches the schedule point
 			max := o.V
@@ -586,6 +590,9 @@ func (c *child) runScenario(sc *scenario) endInfo {
 			deadline := time.Now().Add(300 * time.Millisecond)
 			for time.Now().Before(deadline) && stackHas("wsHandler.ServeHTTP(", "") {
 				time.Sleep(2 * time.Millisecond)
+			}
+			if !stackHas("wsHandler.ServeHTTP(", "") {
+				w.stamp(i, "OWriterGone", 0, 0)
 			}
 		case "send":
 			if cl[i].left {
@@ -835,6 +842,10 @@ func coqEvent(e event) (string, bool) {
 		return fmt.Sprintf("OHandler %d", e.A), true
 	case "OStop":
 		return fmt.Sprintf("OStop %d", e.A), true
+	case "OParked":
+		return "OParked", true
+	case "OWriterGone":
+		return "OWriterGone", true
 	}
 	return "", false
 }
